@@ -270,6 +270,7 @@ PROG_SPECS = {
     "hmbs": (["hmbs.c"], ["-lm"]),
     "hts": (["hts.c"], ["-lm", "-no-pie"]),
     "hq": (["hq.c"], ["-lm"]),
+    "hos": (["hos.c"], ["-lm"]),
 }
 
 
